@@ -5,6 +5,7 @@ import (
 	"encoding/json"
 	"fmt"
 	"os"
+	"strings"
 	"sync"
 	"time"
 
@@ -25,6 +26,12 @@ type dbScenario struct {
 	Mem     []Row  `json:"mem"`   // inserted after the flush (field a, or b when Alter)
 	Div     int    `json:"div"`   // dimension g = k / div
 	Alter   bool   `json:"alter"` // field b added after the flush; the query selects b
+	// how the field is added.  false: ApplySchema on the running database — the row store then
+	// rewrites its file with the new field list (5961cb2), the case waits for that, so the file
+	// rows carry an empty column b and ARE delivered.  true: the database is closed and reopened
+	// with the new table definition — the file keeps its old field list, its rows map none of the
+	// requested columns and are skipped by the scan (the path fixed by dd8e0db).
+	Restart bool `json:"restart,omitempty"`
 	Big     int    `json:"big"`   // > 0: that many extra one-period keys (memory-cap scenario), reopened with a tiny MaxMemoryRatio
 	SQL     string `json:"sql"`
 	Mem0    bool   `json:"includeMem"`
@@ -87,6 +94,23 @@ func (e *dbEnv) insert(r Row, div int, field string) error {
 	return nil
 }
 
+// reopen opens a database on a (possibly existing) directory.  A table's WAL reader that is still
+// winding down when the directory of a closed database is removed reports through DB.Panic;
+// that is no concern of a case.
+func reopen(dir string, coal time.Duration, maxMemoryRatio float64) (*dbk.DB, error) {
+	zdb, err := zenodb.NewDB(&zenodb.DBOpts{Dir: dir, VirtualTime: true, IterationCoalesceInterval: coal, MaxMemoryRatio: maxMemoryRatio,
+		Panic: func(err interface{}) {
+			if strings.Contains(fmt.Sprint(err), "Unable to read from WAL") {
+				return
+			}
+			panic(err)
+		}})
+	if err != nil {
+		return nil, err
+	}
+	return &dbk.DB{DB: zdb, Dir: dir}, nil
+}
+
 func createTable(db *zenodb.DB, alter bool) error {
 	if err := db.CreateTable(&zenodb.TableOpts{Name: "t", RetentionPeriod: time.Hour, SQL: tableSQL(alter),
 		MinFlushLatency: 10000 * time.Hour, MaxFlushLatency: 20000 * time.Hour}); err != nil {
@@ -117,8 +141,13 @@ func (rn *runner) buildDB(sc *dbScenario) (*dbEnv, error) {
 	if div < 1 {
 		div = 1
 	}
-	db, err := dbk.Open(dbk.Opts{Coalesce: e.coal})
+	dir0, err := os.MkdirTemp("", "zvh-db-*")
 	if err != nil {
+		return nil, err
+	}
+	db, err := reopen(dir0, e.coal, 0)
+	if err != nil {
+		os.RemoveAll(dir0)
 		return nil, err
 	}
 	e.db = db
@@ -139,7 +168,21 @@ func (rn *runner) buildDB(sc *dbScenario) (*dbEnv, error) {
 		return nil, fmt.Errorf("inserts not applied in time")
 	}
 	db.VerifForceFlush("t")
-	if sc.Alter {
+	if sc.Alter && sc.Restart {
+		dir := db.Dir
+		db.DB.Close()
+		db.DB.VerifForget()
+		db2, err := reopen(dir, e.coal, 0)
+		if err != nil {
+			return nil, err
+		}
+		db = db2
+		e.db = db2
+		e.n = 0
+		if err := createTable(db2.DB, true); err != nil {
+			return nil, err
+		}
+	} else if sc.Alter {
 		if err := db.ApplySchema(zenodb.Schema{"t": &zenodb.TableOpts{Name: "t", RetentionPeriod: time.Hour, SQL: tableSQL(true),
 			MinFlushLatency: 10000 * time.Hour, MaxFlushLatency: 20000 * time.Hour}}); err != nil {
 			return nil, err
@@ -156,6 +199,10 @@ func (rn *runner) buildDB(sc *dbScenario) (*dbEnv, error) {
 		if !ok {
 			return nil, fmt.Errorf("altered field did not appear")
 		}
+		// ApplySchema returns once the row store has taken the new field list; it is then
+		// rewriting its file.  A forced flush is served by the same goroutine afterwards: when it
+		// returns the rewrite is done (otherwise the query races with it).
+		db.VerifForceFlush("t")
 	}
 	field := "a"
 	if sc.Alter {
@@ -174,7 +221,7 @@ func (rn *runner) buildDB(sc *dbScenario) (*dbEnv, error) {
 		dir := db.Dir
 		db.DB.Close()
 		db.DB.VerifForget()
-		db2, err := dbk.Open(dbk.Opts{Coalesce: e.coal, Dir: dir, MaxMemoryRatio: 1e-15})
+		db2, err := reopen(dir, e.coal, 1e-15)
 		if err != nil {
 			return nil, err
 		}
@@ -239,9 +286,11 @@ func tablePlan(sc *dbScenario, order []int) (map[string]interface{}, error) {
 			row := Row{K: k, V: append([]int(nil), fr.V...)}
 			incl := true
 			if sc.Alter {
-				// the query selects b only: the file holds no b; the memstore columns of the same key are merged in
+				// the query selects b only; the memstore columns of the same key are merged in.
+				// Restart: the file holds no column b, a row without memstore counterpart maps nothing
+				// and is skipped.  Live: the rewritten file has an empty column b, the row is delivered.
 				row.V = []int{}
-				incl = false
+				incl = !sc.Restart
 				if isMem {
 					row.V = append([]int(nil), mr.V...)
 					incl = true
@@ -457,7 +506,11 @@ func (rn *runner) genDB(r *hk.Rng) *Case {
 		sc.File, sc.Mem, sc.Mem0 = []Row{}, []Row{}, false
 	case kind <= 3:
 		sc.Alter = true
+		sc.Restart = r.Chance(1, 2)
 		sc.Mem0 = true
+		if r.Chance(1, 3) {
+			sc.Mem = []Row{} // only file rows: skipped (restart) or delivered empty (live)
+		}
 	case kind <= 8:
 		f := Fault{Kind: "none"}
 		switch r.Intn(4) {
@@ -578,12 +631,17 @@ func (rn *runner) genDB(r *hk.Rng) *Case {
 	c.Plan = plan
 	fillExpectDB(c, sc)
 	genDeadlineAndFault(r, c, len(c.Expect))
+	if sc.Alter && r.Chance(1, 3) {
+		// expired / short deadline over rows that are skipped or delivered empty
+		c.Fault = Fault{Kind: "none"}
+		c.Deadline, c.Now = intp(0), 1
+	}
 	if sc.Big > 0 {
 		c.Fault, c.Deadline, c.Now = Fault{Kind: "none"}, nil, 0
 	}
 	rn.ctx.Res.Hit(fmt.Sprintf("db:query-kind:%d", qk))
 	if sc.Alter {
-		rn.ctx.Res.Hit("db:altered-table")
+		rn.ctx.Res.Hit(fmt.Sprintf("db:altered-table:restart=%v:mem-empty=%v", sc.Restart, len(sc.Mem) == 0))
 	}
 	if sc.CoFault != nil {
 		rn.ctx.Res.Hit("db:coalesced:" + sc.CoFault.Kind)
